@@ -12,7 +12,7 @@
 //! upstream are unchanged must produce exactly A's outputs of that stream. `ReloadReport` must
 //! list a changed stream in `streams_updated` (a renamed one in `streams_added`).
 //!
-//! Signatures (root-cause oriented; <family> = filter|window|sequence|pattern|join|distinct|limit|merge):
+//! Signatures (root-cause oriented; <family> = filter|fn-filter|window|sequence|pattern|join|distinct|limit|merge):
 //!   reload/route-lost/<family>                 a judged stream (changed or not) diverges and hook H4 shows that the
 //!                                              expected engine handed it an event of some type at a step where the
 //!                                              reloaded engine did not
@@ -123,7 +123,7 @@ fn of_stream<'a>(lines: &'a [String], name: &str) -> Vec<&'a String> {
 }
 
 fn family(kind: &str) -> &'static str {
-    for f in ["filter", "window", "sequence", "pattern", "join", "distinct", "limit", "merge"] {
+    for f in ["fn-filter", "filter", "window", "sequence", "pattern", "join", "distinct", "limit", "merge"] {
         if kind.starts_with(f) {
             return f;
         }
@@ -430,6 +430,21 @@ fn check_case(case: &Case, only_cut: Option<usize>, out: &mut Partial, rt: &toki
                         println!("B  #{} routed={:?} -> {:?}{}", j, b.run.routes[j], b.run.outs[j], if b.run.outs[j] != a.outs[j] { "   <-- differs" } else { "" });
                     }
                 }
+                // Self-check of the monitor (off unless C23_PERTURB=state): expect what an engine that
+                // lost all operator state at the reload would produce; stateful streams must then be flagged.
+                let perturbed;
+                let a = if std::env::var("C23_PERTURB").ok().as_deref() == Some("state") {
+                    let mut p = a.clone();
+                    if let Ok(f) = run_plain(&prog, &case.ins[c..], rt) {
+                        for (j, o) in f.outs.into_iter().enumerate() {
+                            p.outs[c + j] = o;
+                        }
+                    }
+                    perturbed = p;
+                    &perturbed
+                } else {
+                    &a
+                };
                 if b.run.outs[c..] != a.outs[c..] {
                     let d = first_stream_divergence(&names_p, &a.outs[c..], &b.run.outs[c..]);
                     match d {
@@ -461,6 +476,7 @@ fn check_case(case: &Case, only_cut: Option<usize>, out: &mut Partial, rt: &toki
         // ------------------------------------------------------------------ edited program
         let Some((ed, prog2)) = &edited else { continue };
         let edit = ed.edit.as_str();
+        out.add(&format!("reload_points_with_edit/{}", edit), 1);
         out.eval();
         let b = match catch(std::panic::AssertUnwindSafe(|| run_reload(&prog, prog2, &case.ins, c, rt))) {
             Err(pn) => {
@@ -634,7 +650,7 @@ fn main() {
     }
 
     let threads = ncpu();
-    let cases = args.pick(800usize, 24_000usize);
+    let cases = args.pick(1000usize, 25_000usize);
     let per_thread = cases / threads + 1;
     let thorough = args.thorough();
     let parts = parallel(threads, args.seed ^ 0xC23, move |_ti, mut rng| {
